@@ -54,7 +54,7 @@ type portsState struct {
 	mu       sync.Mutex
 }
 
-var pst *portsState
+var portSt *portsState
 
 func portFree(p int) bool {
 	l, err := net.Listen("tcp", "127.0.0.1:"+strconv.Itoa(p))
@@ -91,10 +91,10 @@ func pickBase(rng *rand.Rand) int {
 var portsRng = rand.New(rand.NewSource(time.Now().UnixNano()))
 
 func portsClose() {
-	if pst == nil {
+	if portSt == nil {
 		return
 	}
-	st := pst
+	st := portSt
 	verifhook.Set(nil)
 	for _, ch := range st.parked {
 		close(ch)
@@ -112,7 +112,7 @@ func portsClose() {
 	for _, s := range st.squats {
 		s.Close()
 	}
-	pst = nil
+	portSt = nil
 }
 
 func portsReset(maxPorts int) {
@@ -139,7 +139,7 @@ func portsReset(maxPorts int) {
 		PluginManager:    plugin.NewManager(),
 	}
 	st.pm = proxy.NewManager()
-	pst = st
+	portSt = st
 	verifhook.Set(func(point string, keys []string) {
 		switch point {
 		case "tcp.run.acquired", "udp.run.acquired":
@@ -300,7 +300,7 @@ func portsExec(tok []string) string {
 		portsReset(atoi(tok[1]))
 		return "-"
 	}
-	st := pst
+	st := portSt
 	switch tok[0] {
 	case "reg":
 		sid, name, proto := atoi(tok[1]), tok[2], tok[3]
